@@ -511,4 +511,279 @@ def itemDelta (cols : List (List (Int × Int × Int) × Int)) (coords : List Int
   let d ← computeDelta cols coords
   fxFromI32 d
 
+/-! ## read-fonts/src/tables/fvar.rs — `VariationAxisRecord::normalize`
+
+`minV defV maxV value` are Fixed bits. `clamp`, `max`, `cmp` never trap (max ≥ min is ensured).
+`Less => -((default.saturating_sub(value)) / (default.saturating_sub(min)))`,
+`Greater => (value.saturating_sub(default)) / (max.saturating_sub(default))`,
+then `value.clamp(-Fixed::ONE, Fixed::ONE)`. -/
+def clampI (x lo hi : Int) : Int := if x < lo then lo else if x > hi then hi else x
+
+def normalizeRatio (minV defV maxV' v : Int) : Option Int :=
+  if v < defV then do
+    let q ← fxDiv (i32.saturatingSub defV v) (i32.saturatingSub defV minV)
+    fxNeg q
+  else if v > defV then fxDiv (i32.saturatingSub v defV) (i32.saturatingSub maxV' defV)
+  else pure 0
+
+def normalizeAxis (minV defV maxV value : Int) : Option Int := do
+  let maxV' := imax maxV minV
+  let v := clampI value minV maxV'
+  let r ← normalizeRatio minV defV maxV' v
+  let negOne ← fxNeg 65536
+  pure (clampI r negOne 65536)
+
+/-- skrifa `Axis::normalize` = `record.normalize(Fixed::from_f64(coord)).to_f2dot14()` on the
+already converted Fixed value. -/
+def axisNormalize (minV defV maxV value : Int) : Option Int := do
+  let n ← normalizeAxis minV defV maxV value
+  fxToF2Dot14 n
+
+/-! ## read-fonts/src/tables/cmap.rs — `Cmap4` -/
+
+/-- the `range_offset != 0` arm of `lookup_glyph_id`:
+`let mut offset = range_offset / 2 + (codepoint - start_code) as usize;`
+`offset = offset.saturating_sub(range_offsets.len() - index);` -/
+def cmap4Offset (rangeOffset codepoint startCode nSegs index : Int) : Option Int := do
+  let h ← usize.div rangeOffset 2
+  let c ← u16.sub codepoint startCode
+  let off ← usize.add h c
+  let k ← usize.sub nSegs index
+  pure (usize.saturatingSub off k)
+
+/-- `(x as i32 + delta) as u16` -/
+def cmap4AddDelta (x delta : Int) : Option Int := do
+  let s ← i32.add x delta
+  pure (u16.cast s)
+
+/-- `Cmap4::lookup_glyph_id(codepoint, index, start_code)`; arrays as lists (`deltas` i16,
+`rangeOffsets` u16, `glyphIds` u16).  Inner `none` = Rust `None`. -/
+def cmap4Lookup (deltas rangeOffsets glyphIds : List Int) (codepoint index startCode : Int) :
+    Option (Option Int) :=
+  match deltas[index.toNat]?, rangeOffsets[index.toNat]? with
+  | some d, some ro =>
+    if ro = 0 then (cmap4AddDelta codepoint d).map some
+    else
+      match cmap4Offset ro codepoint startCode rangeOffsets.length index with
+      | none => none
+      | some off =>
+        match glyphIds[off.toNat]? with
+        | none => some none
+        | some gid => if gid ≠ 0 then (cmap4AddDelta gid d).map some else some none
+  | _, _ => some none
+
+/-- the binary search of `Cmap4::map_codepoint` (`fuel` ≥ log2 of the segment count + 1):
+`let i = (lo + hi) / 2`, `lo = i + 1`. -/
+def cmap4MapGo (starts ends deltas rangeOffsets glyphIds : List Int) (cp : Int) :
+    Nat → Int → Int → Option (Option Int)
+  | 0, _, _ => some none
+  | fuel + 1, lo, hi =>
+    if lo < hi then
+      match usize.add lo hi with
+      | none => none
+      | some sum =>
+        match usize.div sum 2 with
+        | none => none
+        | some i =>
+          match starts[i.toNat]? with
+          | none => some none
+          | some st =>
+            if cp < st then cmap4MapGo starts ends deltas rangeOffsets glyphIds cp fuel lo i
+            else
+              match ends[i.toNat]? with
+              | none => some none
+              | some en =>
+                if cp > en then
+                  match usize.add i 1 with
+                  | none => none
+                  | some lo' => cmap4MapGo starts ends deltas rangeOffsets glyphIds cp fuel lo' hi
+                else cmap4Lookup deltas rangeOffsets glyphIds cp i st
+    else some none
+
+/-- `Cmap4::map_codepoint(cp)` for `cp ≤ 0xFFFF`; `segCountX2` as read from the header. -/
+def cmap4Map (segCountX2 : Int) (starts ends deltas rangeOffsets glyphIds : List Int) (cp : Int) :
+    Option (Option Int) :=
+  match usize.div segCountX2 2 with
+  | none => none
+  | some hi => cmap4MapGo starts ends deltas rangeOffsets glyphIds cp 40 0 hi
+
+/-! ## read-fonts/src/tables/glyf.rs — simple glyph point decoding -/
+
+/-- one step of `resolve_coords_len`'s accumulation for a flag byte with `repeats` repeats:
+`x_coords_len += ((flags & x_short) != 0) as u32 * repeats;`
+`x_coords_len += ((flags & x_long) == 0) as u32 * repeats * 2;` (same for y),
+`flags_left -= repeats`.  `xs`/`xl` are the two tests as 0/1. -/
+def coordsLenStep (xs xl ys yl repeats xLen yLen flagsLeft : Int) : Option (Int × Int × Int) := do
+  let a ← u32.mul xs repeats
+  let x1 ← u32.add xLen a
+  let b0 ← u32.mul xl repeats
+  let b ← u32.mul b0 2
+  let x2 ← u32.add x1 b
+  let c ← u32.mul ys repeats
+  let y1 ← u32.add yLen c
+  let d0 ← u32.mul yl repeats
+  let d ← u32.mul d0 2
+  let y2 ← u32.add y1 d
+  let fl ← u32.sub flagsLeft repeats
+  pure (x2, y2, fl)
+
+def flagBit (f : Int) (bit : Nat) : Bool := (f / 2 ^ bit) % 2 = 1
+
+/-- one iteration of the `while flags_left > 0` loop of `resolve_coords_len` on flag byte `f`
+followed by `rest`: `some (some (xLen', yLen', flagsLeft', rest', consumed))`; `some none` = `Err`
+(data exhausted / repeat count too large). -/
+def resolveByte (f : Int) (rest : List Int) (xLen yLen flagsLeft : Int) :
+    Option (Option (Int × Int × Int × List Int × Int)) :=
+  let rep := flagBit f 3
+  match (if rep then rest.head? else some 0) with
+  | none => some none
+  | some r =>
+    -- `u32::from(repeats) + 1`
+    match (if rep then u32.add r 1 else some 1) with
+    | none => none
+    | some repeats =>
+      if repeats > flagsLeft then some none else
+      let xs : Int := if flagBit f 1 then 1 else 0
+      let xl : Int := if ¬ flagBit f 1 ∧ ¬ flagBit f 4 then 1 else 0
+      let ys : Int := if flagBit f 2 then 1 else 0
+      let yl : Int := if ¬ flagBit f 2 ∧ ¬ flagBit f 5 then 1 else 0
+      match coordsLenStep xs xl ys yl repeats xLen yLen flagsLeft with
+      | none => none
+      | some (x2, y2, fl) =>
+        some (some (x2, y2, fl, (if rep then rest.tail else rest), (if rep then 2 else 1)))
+
+/-- `resolve_coords_len(data, points_total)` over the flag bytes: `some (some (flagsLen, x, y))`,
+`some none` = `Err`. -/
+def resolveCoordsLenGo : Nat → List Int → (pos xLen yLen flagsLeft : Int) →
+    Option (Option (Int × Int × Int))
+  | 0, _, _, _, _, _ => some none
+  | fuel + 1, bytes, pos, xLen, yLen, flagsLeft =>
+    if flagsLeft ≤ 0 then some (some (pos, xLen, yLen)) else
+    match bytes with
+    | [] => some none
+    | f :: rest =>
+      match resolveByte f rest xLen yLen flagsLeft with
+      | none => none
+      | some none => some none
+      | some (some (x2, y2, fl, rest', consumed)) =>
+        resolveCoordsLenGo fuel rest' (pos + consumed) x2 y2 fl
+
+def resolveCoordsLen (flagBytes : List Int) (pointsTotal : Int) : Option (Option (Int × Int × Int)) :=
+  resolveCoordsLenGo (flagBytes.length + 1) flagBytes 0 0 0 pointsTotal
+
+/-- `PointIter::advance_flags` repeat counter: `flag_repeats = (repeat byte or 0) as u16 + 1`, then
+`flag_repeats -= 1`. -/
+def advanceFlagsCount (flagRepeats repeatByte : Int) : Option Int := do
+  let fr ← if flagRepeats = 0 then u16.add repeatByte 1 else pure flagRepeats
+  u16.sub fr 1
+
+/-- `PointIter::advance_points` for one axis: `(true,false) => -(u8 as i16)`, `(true,true) => u8 as
+i16`, `(false,false) => i16`, `_ => 0`; `cur.wrapping_add(delta)` in i16. -/
+def pointIterAxis (short same : Bool) (raw cur : Int) : Option Int := do
+  let delta ← if short ∧ ¬ same then i16.neg raw
+    else if short ∧ same then pure raw
+    else if ¬ short ∧ ¬ same then pure raw
+    else pure 0
+  pure (i16.wrappingAdd cur delta)
+
+/-- `read_points_fast` for one axis: `delta = u8 as i32; if !same { delta = -delta }` /
+`delta = i16 as i32`; `x = x.wrapping_add(delta)` in i32. -/
+def readFastAxis (short same : Bool) (raw cur : Int) : Option Int := do
+  let delta ← if short then (if ¬ same then i32.neg raw else pure raw)
+    else if ¬ same then pure raw else pure 0
+  pure (i32.wrappingAdd cur delta)
+
+/-- accumulate one axis over the per-point `(short, same, raw)` triples; result = coordinates -/
+def decodeAxis (step : Bool → Bool → Int → Int → Option Int) :
+    List (Bool × Bool × Int) → Int → Option (List Int)
+  | [], _ => some []
+  | (sh, sa, raw) :: rest, cur =>
+    match step sh sa raw cur with
+    | none => none
+    | some c => (decodeAxis step rest c).map (c :: ·)
+
+/-! ## skrifa/src/outline/glyf/hint/instance.rs `setup` and read-fonts cvar.rs `deltas` -/
+
+/-- `Cvar::deltas`: per cvt entry `*value = value.wrapping_add(delta.apply_scalar(scalar).to_bits())`
+(after the fix; before: `*value += …`), `apply_scalar = Fixed::from_i32(self.value) * scalar`,
+over the `(delta value, scalar)` contributions of the active tuples. -/
+def cvarAccum : List (Int × Int) → Int → Option Int
+  | [], acc => some acc
+  | (d, sc) :: rest, acc =>
+    match fxFromI32 d with
+    | none => none
+    | some fd =>
+      match fxMul fd sc with
+      | none => none
+      | some t => cvarAccum rest (i32.wrappingAdd acc t)
+
+/-- the pre-fix accumulation: raw `+=` on i32 -/
+def cvarAccumPreFix : List (Int × Int) → Int → Option Int
+  | [], acc => some acc
+  | (d, sc) :: rest, acc =>
+    match fxFromI32 d with
+    | none => none
+    | some fd =>
+      match fxMul fd sc with
+      | none => none
+      | some t =>
+        match i32.add acc t with
+        | none => none
+        | some a => cvarAccumPreFix rest a
+
+/-- one tuple per element: `(peak, delta)` on a single axis at `coord`; the scalar through
+`tupleScalar` (inactive tuples are skipped). -/
+def cvarDeltaGo (accum : List (Int × Int) → Int → Option Int) (coord : Int) :
+    List (Int × Int) → List (Int × Int) → Option Int
+  | [], terms => accum terms.reverse 0
+  | (peak, d) :: rest, terms =>
+    match tupleScalar [peak] none [coord] with
+    | none => none
+    | some none => cvarDeltaGo accum coord rest terms
+    | some (some sc) => cvarDeltaGo accum coord rest ((d, sc) :: terms)
+
+def cvarDelta (tuples : List (Int × Int)) (coord : Int) : Option Int :=
+  cvarDeltaGo cvarAccum coord tuples []
+
+/-- `HintInstance::setup` per cvt entry with a `cvar` table:
+`delta = Fixed::from_bits(*value).to_f26dot6().to_bits(); base_value = base as i32 * 64;`
+`*value = base_value + delta;` then `(Fixed::from_bits(*value) * scale).to_bits()` with
+`scale = Fixed::from_bits(scale >> 6)`. -/
+def cvtSetup (base accumulated scale : Int) : Option Int := do
+  let delta ← fxToF26Dot6 accumulated
+  let bv ← i32.mul (i32.cast base) 64
+  let v ← i32.add bv delta
+  let sc ← i32.shr scale 6
+  fxMul v sc
+
+/-! ## klippa/src/glyf_loca.rs — `write_glyf_loca` offsets -/
+
+/-- `padded_size(len) = len + len % 2` (usize) -/
+def paddedSize (len : Int) : Option Int := do
+  let r ← usize.rem len 2
+  usize.add len r
+
+/-- short format: `offset += padded_len as u32; value = (offset >> 1) as u16` per glyph length;
+result = the loca entries written after the leading 0. -/
+def locaShort : List Int → Int → Option (List Int)
+  | [], _ => some []
+  | len :: rest, offset =>
+    match paddedSize len with
+    | none => none
+    | some p =>
+      match u32.add offset (u32.cast p) with
+      | none => none
+      | some o =>
+        match u32.shr o 1 with
+        | none => none
+        | some h => (locaShort rest o).map (u16.cast h :: ·)
+
+/-- long format: `offset += g.len() as u32; value = offset`. -/
+def locaLong : List Int → Int → Option (List Int)
+  | [], _ => some []
+  | len :: rest, offset =>
+    match u32.add offset (u32.cast len) with
+    | none => none
+    | some o => (locaLong rest o).map (o :: ·)
+
 end FontVerif.Checked
